@@ -58,6 +58,7 @@ type PkgContracts struct {
 	Funcs    map[string]*FuncContract
 	Order    []string
 	TypeInvs map[string][]*Clause
+	TypeAssumes map[string][]*Clause // assumed for pointer params, never proved (listed in evidence)
 	Ghosts   map[string]*GhostFunc
 	Axioms   []*Clause
 	Globals  []*Clause
@@ -110,7 +111,7 @@ func ParseContracts(dir, pkgPath string) (*PkgContracts, error) {
 	if err != nil {
 		return nil, err
 	}
-	pc := &PkgContracts{PkgPath: pkgPath, Dir: dir, File: file, Funcs: map[string]*FuncContract{}, TypeInvs: map[string][]*Clause{}, Ghosts: map[string]*GhostFunc{}, Closed: map[string]bool{}, Defines: map[string]*Define{}, Pure: map[string]bool{}}
+	pc := &PkgContracts{PkgPath: pkgPath, Dir: dir, File: file, Funcs: map[string]*FuncContract{}, TypeInvs: map[string][]*Clause{}, TypeAssumes: map[string][]*Clause{}, Ghosts: map[string]*GhostFunc{}, Closed: map[string]bool{}, Defines: map[string]*Define{}, Pure: map[string]bool{}}
 	var cur *FuncContract
 	lines := strings.Split(string(data), "\n")
 	// join continuation lines: a line "//@ ..." ending with " \" continues
@@ -246,6 +247,18 @@ func ParseContracts(dir, pkgPath string) (*PkgContracts, error) {
 				c.Props = cur.Props
 			}
 			cur.Loops[n] = append(cur.Loops[n], c)
+		case "typeassume":
+			i := strings.Index(rest, ":")
+			if i < 0 {
+				return nil, fmt.Errorf("%s:%d: bad typeassume", file, l.no)
+			}
+			c, err := mkClause(kw, props, strings.TrimSpace(rest[i+1:]), l.no)
+			if err != nil {
+				return nil, err
+			}
+			tn := strings.TrimSpace(rest[:i])
+			pc.TypeAssumes[tn] = append(pc.TypeAssumes[tn], c)
+			cur = nil
 		case "typeinv":
 			i := strings.Index(rest, ":")
 			if i < 0 {
